@@ -74,6 +74,7 @@ def run_property(pid, tier, seed, relock=False, verbose=False):
     class R:
         def __init__(self, d):
             self.verdict, self.backend, self.secs, self.reason, self.model = d['verdict'], d['backend'], d['secs'], d['reason'], d['model']
+            self.rl, self.h = d.get('rl', 0), d.get('h', '')
 
     def build():
         return prog, db
@@ -87,7 +88,7 @@ def run_property(pid, tier, seed, relock=False, verbose=False):
                 flt = (P.get('case_filter') or {}).get(q)
                 if flt and any(case.get(k2) != v2 for k2, v2 in flt.items()):
                     continue
-                tasks.append((q, ci, {'timeout': timeout, 'retry': retry, 'seed': seed % 1000, 'procs': 8, 'case': case, 'kinds': P.get('kinds')}))
+                tasks.append((q, ci, {'timeout': timeout, 'retry': retry, 'seed': seed % 1000, 'procs': 8, 'case': case, 'kinds': P.get('kinds'), 'want_hash': relock}))
     for out in isolate.run(tasks, build, jobs=3):
         q = out['q']
         if out.get('error'):
@@ -101,6 +102,12 @@ def run_property(pid, tier, seed, relock=False, verbose=False):
         for d in out['obligations']:
             o, r = O(d), R(d)
             obligations.append(o); results.append(r); fn_of[o.id] = q
+            if r.verdict == 'unknown' and o.expect == 'unsat' and r.h:
+                # proof cache: the byte-identical VC (hash of its SMT-LIB text) was discharged when the lock was written; a solver
+                # that runs out of budget on it now (busy machine) does not change its status.  Counted under back end 'lock-cache'.
+                lv = lock.get(o.id if not P.get('kinds') else pid + ':' + o.id)
+                if isinstance(lv, str) and lv == r.h:
+                    r.verdict, r.backend, r.reason = 'unsat', 'lock-cache', 'identical VC discharged at lock time; solver budget exhausted in this run'
             by_backend[r.backend] = by_backend.get(r.backend, 0) + 1
             solver_time += r.secs
 
@@ -122,13 +129,13 @@ def run_property(pid, tier, seed, relock=False, verbose=False):
         if P.get('kinds'):
             lk = {k: v for k, v in lock.items() if not k.startswith(pid + ':')}
             for o, r in discharged:
-                lk[pid + ':' + o.id] = 'P'
+                lk[pid + ':' + o.id] = r.h or 'P'
         else:
             gen = {o.id for o in obligations}
             heads = {o.id.split('/')[0] for o in obligations}       # function@case heads verified in this run: their stale ids are dropped
             lk = {k: v for k, v in lock.items() if ':' in k.split('/')[0] or k.split('/')[0] not in heads}
             for o, r in discharged:
-                lk[o.id] = 'P'
+                lk[o.id] = r.h or 'P'
         json.dump(lk, open(LOCK, 'w'), indent=0, sort_keys=True)
         print('relocked %s: %d discharged obligations (%d not discharged)' % (pid, len(discharged), len(failed)))
         for o, r in failed:
